@@ -108,6 +108,13 @@ def check_convert(
         raise TypeError(err_str + msg_str) from e
     return converted_variable
 
+def number_of_steps(duration: float, dt: float) -> int:
+    """Number of whole time steps of length `dt` that fit into `duration`,
+    where a last step that is complete up to floating point rounding
+    (e.g. `duration=0.3`, `dt=0.1`) is counted as complete. """
+    quotient = duration / dt
+    return int(np.floor(quotient + 1.0e-9 * max(1.0, abs(quotient))))
+
 def check_true(
         expr: bool,
         msg: Text = None):
